@@ -1288,6 +1288,7 @@ def exDecls : Decls where
   scope := id
   raw := fun o => if o = 1 then [10] else if o = 2 then [11] else []
   initial := fun o => if o = 1 then [none] else if o = 2 then [none] else []
+  expanded := fun o => if o = 1 then [none] else if o = 2 then [none] else []
   resolve := fun sc n => if sc = 1 ∧ n = 10 then some 0 else if sc = 2 ∧ n = 11 then some 1 else none
 
 example : (secondPass exDecls (fun _ o => exDecls.scope o) 3 [2, 1, 0]).get 1 = some [some 0]
@@ -1298,6 +1299,82 @@ declaring class) is *not* trigger independent: reached first through C, B loses 
 theorem second_pass_wrong_scope_counterexample :
     (secondPass exDecls (fun cls _ => exDecls.scope cls) 3 [2, 1, 0]).get 1 = some [none]
     ∧ (secondPass exDecls (fun cls _ => exDecls.scope cls) 3 [1, 2, 0]).get 1 = some [some 0] := by
+  decide
+
+/-! ## 10. `Generic[T]` among the bases (`compute_mro.localbases` since commit 749fc3a)
+
+`typing`'s `__mro_entries__` removes a `Generic[...]` base when a later base is a subscripted
+generic; pydoctor's `getbases` now skips the unresolved `typing.Generic` base in the same
+situation.  The two filters are the same function, so the main theorem carries over to
+hierarchies written with such bases. -/
+
+theorem mroEntries_eq_localBases (gen : Nat → Bool) :
+    ∀ raw : List (Nat × Bool), PyMro.mroEntries gen raw = localBases gen raw
+  | [] => rfl
+  | (b, f) :: rest => by
+    simp only [PyMro.mroEntries, localBases, mroEntries_eq_localBases gen rest]
+
+theorem localBases_subset (gen : Nat → Bool) :
+    ∀ (raw : List (Nat × Bool)) (b : Nat), b ∈ localBases gen raw → ∃ p ∈ raw, p.1 = b
+  | [], b, h => by simp [localBases] at h
+  | (a, f) :: rest, b, h => by
+    simp only [localBases] at h
+    split at h
+    · obtain ⟨p, hp, e⟩ := localBases_subset gen rest b h
+      exact ⟨p, List.mem_cons_of_mem _ hp, e⟩
+    · rcases List.mem_cons.1 h with rfl | h
+      · exact ⟨(b, f), List.mem_cons_self .., rfl⟩
+      · obtain ⟨p, hp, e⟩ := localBases_subset gen rest b h
+        exact ⟨p, List.mem_cons_of_mem _ hp, e⟩
+
+/-- the fallback `allbases()` skips unresolved bases anyway: it sees the same classes with or
+without the `Generic` filter -/
+theorem filter_localBases (gen : Nat → Bool) :
+    ∀ raw : List (Nat × Bool),
+      (localBases gen raw).filter (fun b => !gen b) = (raw.map (·.1)).filter (fun b => !gen b)
+  | [] => rfl
+  | (a, f) :: rest => by
+    have ih := filter_localBases gen rest
+    simp only [localBases, List.map_cons]
+    split
+    · rename_i h
+      have : gen a = true := by simp at h; exact h.1
+      simp [List.filter_cons, this, ih]
+    · simp [List.filter_cons, ih]
+
+/-- raw bases name earlier classes; 0 (`object`) is never written -/
+def AcyclicRaw (raw : Nat → List (Nat × Bool)) : Prop := ∀ c, ∀ p ∈ raw c, 0 < p.1 ∧ p.1 < c
+
+/-- **pd_eq_cpython_generic**: for every acyclic hierarchy written with plain, subscripted and
+`Generic[...]` bases, CPython's MRO over the bases `__mro_entries__` leaves is pydoctor's
+linearisation over `getbases`, followed by `object`; both reject the same classes. -/
+theorem pd_eq_cpython_generic (gen : Nat → Bool) (raw : Nat → List (Nat × Bool))
+    (hA : AcyclicRaw raw) (c : Nat) (hc : 0 < c) :
+    PyMro.mro (PyMro.withObject fun c => PyMro.mroEntries gen (raw c)) c
+      = (mro (fun c => localBases gen (raw c)) c).map (· ++ [0]) := by
+  have hfun : (fun c => PyMro.mroEntries gen (raw c)) = fun c => localBases gen (raw c) :=
+    funext fun c => mroEntries_eq_localBases gen (raw c)
+  rw [hfun]
+  apply pd_eq_cpython _ _ c hc
+  intro c b hb
+  obtain ⟨p, hp, rfl⟩ := localBases_subset gen (raw c) b hb
+  exact hA c p hp
+
+/-- 1 = `typing.Generic`; `class 2(Generic[T])`; `class 3(Generic[T], 2[T])` -/
+def exRaw : Nat → List (Nat × Bool)
+  | 2 => [(1, true)] | 3 => [(1, true), (2, true)] | _ => []
+
+example : AcyclicRaw exRaw := by
+  intro c p hp
+  unfold exRaw at hp
+  split at hp <;> simp at hp <;> (try rcases hp with rfl | rfl) <;> (try subst hp) <;> simp
+
+/-- With the bases as pydoctor took them before commit 749fc3a (`Generic` kept), class 3 was
+rejected although Python creates it; with the current `getbases` both agree. -/
+theorem pd_eq_cpython_genericOld_counterexample :
+    mro (fun c => localBasesOld (exRaw c)) 3 = none
+    ∧ PyMro.mro (PyMro.withObject fun c => PyMro.mroEntries (· == 1) (exRaw c)) 3 = some [3, 2, 1, 0]
+    ∧ mro (fun c => localBases (· == 1) (exRaw c)) 3 = some [3, 2, 1] := by
   decide
 
 end Mro
